@@ -356,7 +356,10 @@ def _get_document(*, source: Union[str, Path], timeout: int) -> Union[dict[str, 
         except (httpx.HTTPError, httpcore.NetworkError):
             return GeneratorError(header="Could not get OpenAPI document from provided URL")
     else:
-        yaml_bytes = source.read_bytes()
+        try:
+            yaml_bytes = source.read_bytes()
+        except OSError:
+            return GeneratorError(header="Could not read OpenAPI document from provided path")
         content_type = mimetypes.guess_type(source.absolute().as_uri(), strict=True)[0]
 
     return _load_yaml_or_json(yaml_bytes, content_type)
